@@ -212,6 +212,18 @@ Theorem c16_deep_kid_refuted :
             (AKeySet [k_oct; k_ec]) SNone flat_jwe_deep_kid) (EJose InvalidKeyIdError) = true.
 Proof. exact r22_deep_kid. Qed.
 
+(* the PKCS7 unpadding of the CBC-HS encs is part of the model (not of the enc.decrypt oracle): it returns
+   or raises ValueError for EVERY octet string, including the empty one and lengths that are not a multiple
+   of the block size *)
+Theorem c16_pkcs7_unpad_total :
+  forall data, (exists x, pkcs7_unpad data = Ok x) \/ pkcs7_unpad data = Err EValue.
+Proof. exact pkcs7_unpad_total. Qed.
+Example c16_pkcs7_unpad_examples :
+  pkcs7_unpad [1;2;3;4;5;6;7;8;9;10;11;12;13;3;3;3] = Ok [1;2;3;4;5;6;7;8;9;10;11;12;13] /\
+  pkcs7_unpad (repeat 16 16) = Ok [] /\ pkcs7_unpad (repeat 0 16) = Err EValue /\ pkcs7_unpad (repeat 17 16) = Err EValue /\
+  pkcs7_unpad [1;2;3;4;5;6;7;8;9;10;11;12;13;3;2;3] = Err EValue /\ pkcs7_unpad [1] = Err EValue.
+Proof. exact pkcs7_unpad_example. Qed.
+
 (* callable keys and non-key objects: what guess_key does *)
 Example c16_callable_keys :
   guess_key all_guards (ACall (AKey k_oct)) (Ok (PDict [])) = Ok k_oct /\
@@ -278,3 +290,5 @@ Print Assumptions c16_callable_keys.
 Print Assumptions c16_guards_are_necessary.
 Print Assumptions c16_contract_classes.
 Print Assumptions c16_deep_kid_refuted.
+Print Assumptions c16_pkcs7_unpad_total.
+Print Assumptions c16_pkcs7_unpad_examples.
